@@ -367,6 +367,11 @@ CHECKS = {"case": chk_case}
 
 # ---- workload ----------------------------------------------------------------------------------------------------
 def rand_basis(rng):
+    if rng.random() < 0.12:
+        # mesh classes with an EMPTY level below non-empty ones (fully shaded short patterns): not closed under deletion
+        full = lambda q: enc(MeshPatt(Perm(q), [(x, y) for x in range(len(q) + 1) for y in range(len(q) + 1)]))  # noqa: E731
+        return rng.choice([[full([0])], [full([0, 1]), full([1, 0])], [full([0]), full([0, 1]), full([1, 0])], [full([0]), [0, 1, 2]],
+                           [full([0, 1]), full([1, 0]), [0, 2, 1]], [full([0]), enc(MeshPatt(Perm((0, 1)), [(1, 1)]))]])
     if rng.random() < 0.75:
         return [rng.sample(range(k), k) for k in (rng.choice([2, 3, 3, 3, 4, 4]) for _ in range(rng.randint(1, 3)))]
     out = []
